@@ -21,6 +21,8 @@ type C04Case struct {
 	// SealBit >= 0: flip this bit (absolute bit index) of a CRC32-protected metadata field and
 	// recompute the CRC32 that protects it
 	SealBit int `json:",omitempty"`
+	// Cut > 0: after the field edit the file is cut to this many bytes
+	Cut int `json:",omitempty"`
 }
 
 func init() {
@@ -39,7 +41,7 @@ func init() {
 			} else {
 				for _, e := range structEdits(8) {
 					if e.Name == p.Edit {
-						c04Struct(r, s, e)
+						c04Struct(r, s, e) // (re-runs the edit and all its cuts)
 					}
 				}
 			}
@@ -208,6 +210,14 @@ func c04Struct(r *core.Run, s Stream, e StructEdit) {
 	}
 	r.Count("struct_edits", 1)
 	c04Judge(r, cs, s, mutated, "xz edit "+editClass(e.Name), desc, true)
+	// deviation bound 2: the edited file additionally ends early, at every
+	// byte offset behind the stream header. A damaged header must not turn the missing rest into a
+	// regular end of stream.
+	for k := 13; k < len(mutated); k++ {
+		cs2 := core.MkCase("C04", "mutate", C04Case{Stream: s.Name, Edit: e.Name, Cut: k})
+		c04Judge(r, cs2, s, mutated[:k], "xz edit "+editClass(e.Name)+" + end of input", desc+fmt.Sprintf(", then cut to %d bytes", k), false)
+	}
+	r.Count("struct_edits_with_truncation", int64(len(mutated)-13))
 }
 
 // editClass strips block numbers so that a signature names the field, not the instance.
